@@ -49,6 +49,12 @@ def make_rsa(rng, clsmap):
       arts[slot] = gen.rsa_healthy(rng, aid, 3072)
     elif c == 'healthy4096':
       arts[slot] = gen.rsa_healthy(rng, aid, 4096)
+    elif c == 'healthypad':
+      # a healthy key whose fields are encoded with leading zero bytes (fixed-width encoders do that): the same integers
+      k = gen.rsa_healthy(rng, aid, 2048)
+      k.proto.rsa_info.e = b'\x00' * rng.choice([1, 5]) + bytes(k.proto.rsa_info.e)
+      k.proto.rsa_info.n = b'\x00' * rng.choice([1, 2]) + bytes(k.proto.rsa_info.n)
+      arts[slot] = k
     elif c == 'small':
       arts[slot] = gen.rsa_small(rng, aid)
     elif c == 'exponent':
